@@ -184,10 +184,12 @@ def run_ws(script, seed):
             if e['op'] == 'ret':
                 log.append({'t': e['t'], 'op': 'ret', 'item': ''})
                 continue
-            if e['q'] is conn_inq:
-                # the writer closing the websocket wakes the reader through its frame queue
-                if e['op'] == 'put' and e['item'] is W._CLOSED and e['t'] == 2:
+            if e['q'] == 'ws':
+                # the writer closing the websocket (which wakes the reader)
+                if e['op'] == 'ws_close' and e['t'] == 2:
                     log.append({'t': 2, 'op': 'ws_close', 'item': ''})
+                continue
+            if e['q'] is conn_inq:
                 continue
             if e['q'] is not so.queue:
                 continue
@@ -453,3 +455,58 @@ def replay_server_schedule(sched, seed=0):
         return final
     finally:
         w.close()
+
+
+def replay_ws_schedule(sched, seed=0):
+    """spec -> code at L2, websocket session of the threaded server: schedule entries [p, k] from
+    EioQueueFineWsSim (p = 1 reader, 2 writer, >2 short tasks, 0 environment)."""
+    w = W.make_world('sync', {'ping_interval': 4000, 'ping_timeout': 2000, 'monitor': False},
+                     seed=seed, preempt=False)
+    try:
+        hub = w.hub
+        hub.child_proc = {(1, 'writer'): 2}
+        w.connect_plan = [('accept', False)]
+        rid = w.ws_request('transport=websocket&EIO=4')
+        w.reqs[rid].task.proc = 1
+        w.quiesce()
+        sid, so = w.sids[1], w.socks[1]
+        hub.primlog = []
+        hub.scripted = so.queue
+        hub.script_skip = ()
+        tasks = {1: w.reqs[rid].task,
+                 2: next(t for t in hub.tasks if getattr(t, 'proc', None) == 2)}
+        for ent in sched:
+            p, k = ent['p'], ent['k']
+            if k == 'silent':
+                continue
+            if p == 0:
+                if k == 'close':
+                    w.ws_frame(1, '1')
+                else:
+                    w.ws_drop(1)
+            elif k in ('send', 'disc'):
+                if k == 'send':
+                    t = w.reqs[w.app_send(1)]['task']
+                else:
+                    w.nreq += 1
+                    t = w.reqs[w.app_disconnect_with_id(1, w.nreq)]['task']
+                t.proc = p
+                tasks[p] = t
+            else:
+                try:
+                    hub.step(tasks[p])
+                except RuntimeError as e:
+                    raise RuntimeError('%s at schedule entry %d; log so far: %r' % (
+                        e, sched.index(ent), [(x['t'], x['op']) for x in hub.primlog][-8:]))
+        hub.scripted = None
+        hub.primlog = None
+        snap = w.snapshot(1)
+        return {'q': snap['ss'][0]['q'], 'unf': snap['ss'][0]['unf'],
+                'closed': snap['ss'][0]['closed'], 'closing': snap['ss'][0]['closing'],
+                'intable': sid in w.server.sockets,
+                'ev': [e[5:] for e in snap['ev'][0] if e.startswith('disc:')],
+                'deliv': [d[0] for d in snap['deliv'][0]], 'sent': len(w.accepted.get(1, [])),
+                'done': {p: bool(t.done) for p, t in tasks.items()}}
+    finally:
+        w.close()
+
